@@ -97,7 +97,9 @@ theorem collectWatches_len (H : Heap) (L : Limits) (ws : List WatchIn) (c : Cach
     split
     · split
       · simp only; omega
-      · exact ih _ _ hmerge
+      · split
+        · exact ih _ _ hkeep
+        · exact ih _ _ hmerge
     · split
       · exact ih _ _ hkeep
       · split
@@ -124,25 +126,22 @@ theorem listChildrenFrom_cap (m pvid depth : Nat) (xs : List ObjId) (t : Nat) :
 theorem childNodes_cap (L : Limits) (pvid : Nat) (o : PyObj) (d : Nat) (cs : List Node)
     (h : childNodes L pvid o d = .ok cs) (hd : o.isDictExact = false)
     (hk : listLikeTypes.contains o.tyName = true ∨ o.isExc = .ok true) : cs.length ≤ L.maxColl := by
-  unfold childNodes at h
-  split at h
-  · simp only [Except.ok.injEq] at h; subst h; simp
-  · split at h
-    · simp only [Except.ok.injEq] at h; subst h; simp
-    · simp only [childBranches, branchChildren, hd, Bool.false_eq_true, if_false] at h
-      by_cases hl : listLikeTypes.contains o.tyName = true
-      · simp only [hl, if_true] at h
-        cases hs : o.seq with
-        | ok xs =>
-          simp only [hs, probeList, Except.ok.injEq] at h; subst h
-          simpa using listChildrenFrom_cap L.maxColl pvid (d + 1) xs 0
-        | raises m => simp [hs, probeList] at h
-      · have he : o.isExc = .ok true := hk.resolve_left hl
-        simp only [hl, Bool.false_eq_true, if_false, he] at h
-        cases hs : o.excArgs with
-        | ok xs =>
-          simp only [hs, probeList, Except.ok.injEq] at h; subst h
-          simpa using listChildrenFrom_cap L.maxColl pvid (d + 1) xs 0
-        | raises m => simp [hs, probeList] at h
+  rcases childNodes_ok_cases h with rfl | ⟨_, h⟩
+  · simp
+  · simp only [childBranches, branchChildren, hd, Bool.false_eq_true, if_false] at h
+    by_cases hl : listLikeTypes.contains o.tyName = true
+    · simp only [hl, if_true] at h
+      cases hs : o.seq with
+      | ok xs =>
+        simp only [hs, probeList, Except.ok.injEq] at h; subst h
+        simpa using listChildrenFrom_cap L.maxColl pvid (d + 1) xs 0
+      | raises m => simp [hs, probeList] at h
+    · have he : o.isExc = .ok true := hk.resolve_left hl
+      simp only [hl, Bool.false_eq_true, if_false, he] at h
+      cases hs : o.excArgs with
+      | ok xs =>
+        simp only [hs, probeList, Except.ok.injEq] at h; subst h
+        simpa using listChildrenFrom_cap L.maxColl pvid (d + 1) xs 0
+      | raises m => simp [hs, probeList] at h
 
 end Collector
